@@ -98,7 +98,7 @@ theorem readVal_enc (e : Endian) (v : TVal) (hw : v.wt = true) (f : Nat) (hf : v
   | zero => cases v <;> simp [TVal.size] at hf
   | succ f =>
     cases v with
-    | bool b => cases b <;> simp [enc, TVal.ttype, readVal, readI, readU, takeN, decFixed, beToNat, leToNat, toS] <;> cases e <;> simp [decFixed, beToNat, leToNat] <;> decide
+    | bool b => cases b <;> simp [enc, TVal.ttype, readVal, readI, readU, takeN, decFixed, beToNat, leToNat, toS] <;> cases e <;> decide
     | i8 n => simp [TVal.wt] at hw; simp [enc, TVal.ttype, readVal, readI_i e 1 (by decide) n hw]
     | i16 n => simp [TVal.wt] at hw; simp [enc, TVal.ttype, readVal, readI_i e 2 (by decide) n hw]
     | i32 n => simp [TVal.wt] at hw; simp [enc, TVal.ttype, readVal, readI_i e 4 (by decide) n hw]
